@@ -66,6 +66,8 @@ def all_specs():
         out.append({"k": "category", "name": f"category{i}", "cats": c, "ordered": bool(i % 2)})
     for tz in TZS:
         out.append({"k": "datetime", "name": f"datetime[{tz}]", "tz": tz})
+    # a DateTime with its own parsing options (pandas_engine.DateTime(to_datetime_kwargs={"format": ...}))
+    out.append({"k": "datetime", "name": "datetime[format=%d/%m/%Y]", "tz": None, "fmt": "%d/%m/%Y"})
     out.append({"k": "date", "name": "date"})
     out.append({"k": "timedelta", "name": "timedelta64[ns]"})
     for p, s in DECIMALS:
@@ -82,6 +84,8 @@ def build_dtype(spec):
         return pe.Engine.dtype(spec["name"])
     if k == "category":
         return pe.Category(categories=list(spec["cats"]), ordered=spec["ordered"])
+    if k == "datetime" and spec.get("fmt"):
+        return pe.DateTime(to_datetime_kwargs={"format": spec["fmt"]})
     if k == "datetime":
         return pe.DateTime(tz=spec["tz"]) if spec["tz"] else pe.Engine.dtype("datetime64[ns]")
     if k == "date":
@@ -97,6 +101,8 @@ _INT_RE = re.compile(r"^-?(0|[1-9][0-9]{0,25})$")
 _NUMSTR = {"1": 1.0, "0": 0.0, "-1": -1.0, "2": 2.0, "1.5": 1.5, "300": 300.0, "-0.5": -0.5}
 BAD_STR = ("abc", "x")  # not a number, not a date, not a duration, not a boolean literal
 _DATE_RE = re.compile(r"^\d{4}-\d{2}-\d{2}$")
+FMT_RE = re.compile(r"^\d{2}/\d{2}/\d{4}$")
+FMT_CELLS = ["01/02/2021", "13/01/2021", "31/12/1999", "02/13/2021", "28/02/2020"]
 
 EXACT, FAIL, NULL_OK, NULL_FAIL, GREY = "exact", "fail", "null_ok", "null_fail", "grey"
 
@@ -237,6 +243,18 @@ def own(spec, v):
         tz = spec.get("tz")
         if null:
             return (NULL_OK, None)
+        if spec.get("fmt"):
+            # an explicit format: strings in that format convert to the moment they spell, strings in another
+            # (ISO) format or no format at all cannot be converted; everything else is left unclassified
+            if isinstance(v, str):
+                if FMT_RE.match(v):
+                    try:
+                        return (EXACT, pd.Timestamp(datetime.datetime.strptime(v, spec["fmt"])))
+                    except ValueError:
+                        return (FAIL, None)
+                if _DATE_RE.match(v) or v in BAD_STR:
+                    return (FAIL, None)
+            return (GREY, None)
 
         def fin(ts):
             if k == "date":
